@@ -47,7 +47,7 @@ PROFILES = [(), ("a",), ("a", "b"), ("a", "k")]
 
 def BOUNDS(tier):
     return {"pipeline_length": "1..3" if tier == "quick" else "1..4", "forms": FORMS,
-            "argument_profiles": [list(p) for p in PROFILES], "nested_argument": "a: [x, {y: z}] by choice at position min(1, n-1)", "eager_tag": "by choice at position 1"}
+            "argument_profiles": [list(p) for p in PROFILES], "argument_kinds_at_position_(1 if n>=3 else 0)": list(AKINDS), "eager_tag": "by choice at position 1"}
 
 
 class EP:
@@ -78,7 +78,74 @@ def _cls_for(i, n, failing, eager):
     return P.EagerDeco if eager else P.Deco
 
 
-def _spec(ctx, n):
+class A:
+    """one configured argument value: how it looks as python object, as YAML text, and how to recognise it"""
+
+    def __init__(self, kind, vals):
+        self.kind, self.vals = kind, vals
+
+    def obj(self):
+        x = self.vals
+        if self.kind == "scalar":
+            return x[0]
+        if self.kind == "nested":
+            return [x[0], {"y": x[1]}]
+        if self.kind == "typed":
+            return {"__type__": "vf.harness.c05_plugins.make_arg", "v": x[0]}
+        if self.kind == "eager_seq":
+            return P.EagerArg([x[0], x[1]], {"y": x[2]})
+        if self.kind == "eager_map":
+            return P.EagerArg(p=[x[0], x[1]], q={"y": x[2]})
+        if self.kind == "lazy_map":
+            return P.LazyArg(p=[x[0], x[1]], q={"y": x[2]})
+        raise ValueError(self.kind)
+
+    def yaml(self):
+        v = [str(int(z)) for z in self.vals]
+        return {
+            "scalar": lambda: v[0],
+            "nested": lambda: "[%s, {y: %s}]" % (v[0], v[1]),
+            "typed": lambda: "{__type__: vf.harness.c05_plugins.make_arg, v: %s}" % v[0],
+            "eager_seq": lambda: "!EagerArg [[%s, %s], {y: %s}]" % (v[0], v[1], v[2]),
+            "eager_map": lambda: "!EagerArg {p: [%s, %s], q: {y: %s}}" % (v[0], v[1], v[2]),
+            "lazy_map": lambda: "!LazyArg {p: [%s, %s], q: {y: %s}}" % (v[0], v[1], v[2]),
+        }[self.kind]()
+
+    def matches(self, got, by_value, original=None):
+        x = self.vals
+
+        def eq(a, b):
+            if by_value:
+                return not is_sym(a) and a == b
+            return same(a, b) or (not is_sym(a) and not is_sym(b) and a is b)
+
+        if self.kind == "scalar":
+            return eq(got, x[0])
+        if self.kind == "nested":
+            return (isinstance(got, list) and len(got) == 2 and eq(got[0], x[0]) and isinstance(got[1], dict)
+                    and list(got[1]) == ["y"] and eq(got[1]["y"], x[1]))
+        if self.kind == "typed":
+            return (type(got) is P.Arg and got.args == () and list(got.kwargs) == ["v"] and eq(got.kwargs["v"], x[0]))
+        if not by_value:
+            return got is original  # the very object PyYAML delivered
+        cls = P.LazyArg if self.kind == "lazy_map" else P.EagerArg
+        if type(got) is not cls:
+            return False
+        if self.kind == "eager_seq":
+            want_args, want_kwargs = ([x[0], x[1]], {"y": x[2]}), {}
+        else:
+            want_args, want_kwargs = (), {"p": [x[0], x[1]], "q": {"y": x[2]}}
+        final_ok = list(got.args) == list(want_args) and got.kwargs == want_kwargs
+        if self.kind == "lazy_map":
+            return final_ok
+        # eagerly evaluated tags must have seen their complete arguments when they were called
+        return final_ok and got.snapshot is not None and list(got.snapshot[0]) == list(want_args) and got.snapshot[1] == want_kwargs
+
+
+AKINDS = ("scalar", "nested", "typed", "eager_seq", "eager_map", "lazy_map")
+
+
+def _spec(ctx, n, rich=True):
     """symbolic description of the section: per element (cls, form, kwargs in order)"""
     fail = ctx.choice("fail_pos", n + 1)  # n = nobody fails
     spec = []
@@ -94,10 +161,12 @@ def _spec(ctx, n):
             names = PROFILES[ctx.choice("profile%d" % i, len(PROFILES))]
         kw = {}
         for name in names:
-            if name == "a" and i == min(1, n - 1) and ctx.flag("nested%d" % i):
-                kw[name] = [ctx.num("e%d_a0" % i, "int"), {"y": ctx.num("e%d_a1" % i, "int")}]
-            else:
-                kw[name] = ctx.num("e%d_%s" % (i, name), "int")
+            kind = "scalar"
+            if name == "a" and i == (1 if n >= 3 else 0):
+                kinds = [k for k in (AKINDS if rich else AKINDS[:2]) if k != "typed" or form == "legacy"]
+                kind = kinds[ctx.choice("akind%d" % i, len(kinds))]
+            nvals = {"scalar": 1, "nested": 2, "typed": 1}.get(kind, 3)
+            kw[name] = A(kind, [ctx.num("e%d_%s%d" % (i, name, j), "int") for j in range(nvals)])
         spec.append((cls, form, kw))
     return spec, fail
 
@@ -105,7 +174,10 @@ def _spec(ctx, n):
 def _content(spec):
     """the python objects PyYAML + factory_constructor deliver for each form"""
     out = []
-    for cls, form, kw in spec:
+    for cls, form, kwa in spec:
+        kw = {k: a.obj() for k, a in kwa.items()}
+        for k, a in kwa.items():
+            a.original = kw[k]
         if form == "tag_mapping":
             out.append(cls.s(**kw))
         elif form == "tag_sequence":
@@ -121,10 +193,8 @@ def _scalar(v):
     return str(int(v))
 
 
-def _yaml_value(v):
-    if isinstance(v, list):
-        return "[%s, {y: %s}]" % (_scalar(v[0]), _scalar(v[1]["y"]))
-    return _scalar(v)
+def _yaml_value(a):
+    return a.yaml()
 
 
 def _yaml(spec):
@@ -178,7 +248,7 @@ def _check(ctx, tag, spec, fail, result, err, log, by_value):
         ok = True
         for k in want:
             if k in kw:
-                ok = ok and _eq(seen[k], kw[k], by_value)
+                ok = ok and kw[k].matches(seen[k], by_value, getattr(kw[k], "original", None))
             else:
                 ok = ok and (seen[k] is None if want[k] is None else (not is_sym(seen[k]) and seen[k] == want[k]))
         ctx.require(ok, tag + "constructed with exactly the configured arguments")
@@ -199,8 +269,8 @@ def _check(ctx, tag, spec, fail, result, err, log, by_value):
     ctx.require(isinstance(result[-1], P.ThePool), tag + "the last element is the pool")
 
 
-def pipeline(ctx, n):
-    spec, fail = _spec(ctx, n)
+def pipeline(ctx, n, rich=True):
+    spec, fail = _spec(ctx, n, rich)
     # layer 1: the objects PyYAML delivers, through the real section plugin
     del P.LOG[:]
     try:
@@ -216,18 +286,19 @@ def pipeline(ctx, n):
     if fail == n and err is None and n > 1:
         del P.LOG[:]
         chain = None
-        for cls, form, kw in reversed(spec):
+        for cls, form, kwa in reversed(spec):
+            kw = {k: (a.original if a.kind != "typed" else P.make_arg(v=a.vals[0])) for k, a in kwa.items()}
             if form == "tag_sequence":
                 t = cls.s(*kw.values())
             else:
                 t = cls.s(**kw)
             chain = (t >> chain) if chain is not None else t.__construct__()
         ref = list(P.LOG)
-        ctx.require([type(o).__name__ for o, _, _ in ref] == [type(o).__name__ for o, _, _ in log]
-                    and all(all(_eq(a[2][k], b[2][k], False) or (a[2][k] is None and b[2][k] is None)
-                                or (not is_sym(a[2][k]) and not isinstance(a[2][k], list) and a[2][k] == b[2][k] == 0)
-                                for k in ("a", "b", "k")) for a, b in zip(ref, log)),
-                    "the result equals the pipeline built in python with >>")
+        ok = [type(o).__name__ for o, _, _ in ref] == [type(o).__name__ for o, _, _ in log]
+        for (obj, target, seen), (cls, form, kwa) in zip(ref, reversed(spec)):
+            for k, a in kwa.items():
+                ok = ok and a.matches(seen[k], False, getattr(a, "original", None))
+        ctx.require(ok, "the result equals the pipeline built in python with >>")
     # layer 2 (concrete replays only): the witness rendered as YAML text through the real load()
     if ctx.mode == "conc":
         text = _yaml(spec)
@@ -256,8 +327,9 @@ def tasks(tier, seed):
     nmax = 3 if tier == "quick" else 4
     out = []
     for n in range(1, nmax + 1):
-        out.append(Task(MOD, "pipeline", dict(n=n), model="Z", weight=20 ** n,
-                        shards=1 if n < 3 else (8 if n == 3 else 64),
+        rich = n <= 2 or (tier == "thorough" and n == 3)  # all six kinds of argument value
+        out.append(Task(MOD, "pipeline", dict(n=n, rich=rich), model="Z", weight=20 ** n,
+                        shards=1 if n < 2 else (4 if n == 2 else (16 if n == 3 else 64)),
                         witness_every=1 if n < 3 or (n == 3 and tier == "thorough") else (3 if n == 3 else 13)))
     return out
 
